@@ -25,6 +25,16 @@ CLAIMED = {
   "Trusted: go/ssa, gosym interpreter + scheduler, the time.Time model (instants as 64-bit nanoseconds, no saturation; instants < 2^40 ns), z3. Outside the claim: NewTimer/NewTicker variants, the runner's reaction to cancellation and the DEADLINE_EXCEEDED mapping in local_build_executor.go, more events than the bound.",
   "SMT-based symbolic execution of go/ssa with symbolic time (z3), inductive step + bounded event sequences, native replay",
   "DESIGN.md §4 C11"),
+ "C13": (
+  "Bounded symbolic model checking of the real code: inMemoryPrepopulatedDirectory (Virtual* and worker-facing bulk methods) is executed from go/ssa on every operation sequence of length 3 (quick) / 4 (thorough) from the empty root over <=3 directories and 2-3 names, every choice (operation, directory, name, flags) explored exhaustively, against an independent map-based POSIX reference model: status codes, returned objects, final tree contents (LookupAllChildren), leaf link counts, change counters (strictly increase exactly on modification; ChangeInfo brackets), and no lock held after any call.",
+  "Trusted: go/ssa, gosym interpreter, z3. The reference model in harness/C13/directory.go. Outside the claim: longer sequences, more names/directories, renames of a directory into its own subtree (documented upstream TODO), paginated ReadDir cookies (not yet checked), the FUSE/NFS front ends, case-insensitive normalisation.",
+  "symbolic execution of go/ssa with exhaustive bounded operation sequences against a reference model (z3 for the flag/branch conditions), native replay",
+  "DESIGN.md §4 C13"),
+ "C14": (
+  "Bounded symbolic model checking of the real code: (a) every call of the C13 directory rig (all sequences of 3/4 operations, every error return reached by them) is followed by TryLock probes of every directory lock and an engine-level check that no sync.Mutex/RWMutex is held; (b) LockPile with 2/3 threads x 2/3 mutexes under all interleavings within the preemption bound including switches before every lock operation: no deadlock, locks held on return, truthful result, recursion counted; (c) two threads on overlapping directories (opposite renames, remove vs. lookup, bulk removal vs. readdir): all schedules terminate and leave no lock held. The allocator/quota/clock/IdleInvoker harnesses of C15/C11/C12 make the same no-lock-held assertion for their packages.",
+  "Trusted: go/ssa, gosym interpreter and scheduler, z3. Outside the claim: a static all-paths lock analysis of every function (the lockscan mode of DESIGN.md §2.7 was not built: only the paths reached by the rigs are covered); NFS server, scheduler and file-allocator locks are covered only as far as their own properties' harnesses exist; more than 3 threads; beyond the preemption bound.",
+  "symbolic execution of go/ssa with explored goroutine schedules; dynamic lock-state assertions after every call; native replay",
+  "DESIGN.md §4 C14"),
 }
 
 PENDING_REASON = "check not registered yet (framework under construction; see DESIGN.md §6 build order)"
